@@ -27,9 +27,18 @@ static Eigen::Matrix<double, 6, 6> randomPSD(std::mt19937 & rng, int rank)
   return A;
 }
 
+static void check_ellipse(const Ellipse & e, const Eigen::Matrix2d & C, double sigma, const char * what);
 static void ellipse_case(const Eigen::Matrix2d & C, double sigma, const char * what)
 {
-  Ellipse e(Eigen::Vector2d(1, 2), C, sigma);
+  check_ellipse(Ellipse(Eigen::Vector2d(1, 2), C, sigma), C, sigma, what);
+  // the same covariance through the two uncertaintyEllipse overloads
+  Position2D p2; p2.position = Eigen::Vector2d(1, 2); p2.covariance = C;
+  check_ellipse(uncertaintyEllipse(p2, sigma), C, sigma, "uncertaintyEllipse(Position2D)");
+  Pose2D q2; q2.position = Eigen::Vector2d(1, 2); q2.yaw = 0.3; q2.covariance.setIdentity(); q2.covariance.block<2, 2>(0, 0) = C;
+  check_ellipse(uncertaintyEllipse(q2, sigma), C, sigma, "uncertaintyEllipse(Pose2D)");
+}
+static void check_ellipse(const Ellipse & e, const Eigen::Matrix2d & C, double sigma, const char * what)
+{
   double a = e.getMajorRadius(), b = e.getMinorRadius(), th = e.getOrientation();
   double scale = C.norm() + 1e-300;
   if (!(a >= b && b >= 0) || !std::isfinite(a) || !std::isfinite(b)) { FAIL("%s cov=[%.17g %.17g; %.17g %.17g] sigma=%g: radii not ordered/non-negative (major=%g minor=%g)", what, C(0, 0), C(0, 1), C(1, 0), C(1, 1), sigma, a, b); return; }
@@ -95,6 +104,7 @@ int main(int argc, char ** argv)
   }
   // ellipses: diagonal, rotated, rank-deficient (v v^T), scaled
   double sigmas[] = {0.5, 1, 3, 10};
+  for (double vx : {0.0, 0.25, 1.0, 4.0}) for (double vy : {0.0, 0.25, 1.0, 4.0}) if (vx + vy > 0) { Eigen::Matrix2d C; C << vx, 0, 0, vy; ellipse_case(C, 3, "axis-aligned"); }
   for (int k = 0; k < 400; ++k) {
     Eigen::Matrix2d C;
     if (k % 4 == 0) { Eigen::Vector2d v((double)(rng() % 601) / 100 - 3, (double)(rng() % 601) / 100 - 3); C = v * v.transpose(); }
